@@ -5,8 +5,14 @@
 package vauth
 
 import (
+	"bytes"
 	"context"
+	"go/ast"
+	"go/parser"
+	"go/printer"
+	"go/token"
 	"sort"
+	"strings"
 	"sync"
 
 	"github.com/foxcpp/maddy/framework/module"
@@ -76,3 +82,95 @@ func (a FixedAuth) AuthPlain(username, password string) error {
 }
 
 var _ module.PlainAuth = FixedAuth{}
+
+// ---- source-shape facts (go/ast over the current working tree), used by the C14 skeleton checks
+
+// Src is a parsed Go source file.
+type Src struct {
+	Fset *token.FileSet
+	File *ast.File
+}
+
+func ParseSrc(path string) (*Src, error) {
+	fset := token.NewFileSet()
+	f, err := parser.ParseFile(fset, path, nil, 0)
+	if err != nil {
+		return nil, err
+	}
+	return &Src{fset, f}, nil
+}
+
+// Render prints a node with all white space removed.
+func (s *Src) Render(n ast.Node) string {
+	var b bytes.Buffer
+	printer.Fprint(&b, s.Fset, n)
+	return strings.Join(strings.Fields(b.String()), "")
+}
+
+// Func finds a function or method by name (recv: receiver type name without '*', "" for functions).
+func (s *Src) Func(recv, name string) *ast.FuncDecl {
+	for _, d := range s.File.Decls {
+		fd, ok := d.(*ast.FuncDecl)
+		if !ok || fd.Name.Name != name {
+			continue
+		}
+		r := ""
+		if fd.Recv != nil && len(fd.Recv.List) == 1 {
+			t := fd.Recv.List[0].Type
+			if st, ok := t.(*ast.StarExpr); ok {
+				t = st.X
+			}
+			if id, ok := t.(*ast.Ident); ok {
+				r = id.Name
+			}
+		}
+		if r == recv {
+			return fd
+		}
+	}
+	return nil
+}
+
+// Calls lists, in source order, the calls under n whose callee (rendered) satisfies match; calls named in
+// firstArg are printed with their first argument only.
+func (s *Src) Calls(n ast.Node, match func(callee string) bool, firstArg func(callee string) bool) []string {
+	var out []string
+	ast.Inspect(n, func(x ast.Node) bool {
+		c, ok := x.(*ast.CallExpr)
+		if !ok {
+			return true
+		}
+		callee := s.Render(c.Fun)
+		if !match(callee) {
+			return true
+		}
+		if firstArg != nil && firstArg(callee) && len(c.Args) > 0 {
+			out = append(out, callee+"("+s.Render(c.Args[0])+")")
+		} else {
+			out = append(out, s.Render(c))
+		}
+		return true
+	})
+	return out
+}
+
+// FuncLitArg returns the function literal passed as first argument to the first call of callee under n.
+func (s *Src) FuncLitArg(n ast.Node, callee string) *ast.FuncLit {
+	var lit *ast.FuncLit
+	ast.Inspect(n, func(x ast.Node) bool {
+		c, ok := x.(*ast.CallExpr)
+		if !ok || lit != nil {
+			return lit == nil
+		}
+		if s.Render(c.Fun) == callee {
+			for _, a := range c.Args {
+				if fl, ok := a.(*ast.FuncLit); ok {
+					lit = fl
+					return false
+				}
+			}
+		}
+		return true
+	})
+	return lit
+}
